@@ -166,6 +166,10 @@ def flat_sorts(t: Ty) -> list:
         fs = flat_sorts(t.t)
         assert len(fs) == 1, "sets of scalars only"
         return [z3.ArraySort(fs[0], z3.BoolSort())]
+    if isinstance(t, MapT):
+        ks = flat_sorts(t.k)
+        assert len(ks) == 1, "maps with scalar keys only"
+        return [z3.ArraySort(ks[0], z3.BoolSort())] + [z3.ArraySort(ks[0], s) for s in flat_sorts(t.v)]
     raise TypeError(f"cannot flatten {t}")
 
 
@@ -409,6 +413,9 @@ def pack(v: V, t: Ty) -> list:
     if isinstance(t, SetT):
         assert isinstance(v, VSet), (v, t)
         return [v.arr]
+    if isinstance(t, MapT):
+        assert isinstance(v, VMap), (v, t)
+        return [v.present] + list(v.arrs)
     raise TypeError(f"cannot pack {v} as {t}")
 
 
@@ -470,6 +477,9 @@ def _unpack(t: Ty, terms: list):
         return VSeq(t.t, terms[:n], terms[n]), terms[n + 1:]
     if isinstance(t, SetT):
         return VSet(t.t, terms[0]), terms[1:]
+    if isinstance(t, MapT):
+        n = len(flat_sorts(t.v))
+        return VMap(t.k, t.v, terms[0], terms[1:1 + n]), terms[1 + n:]
     raise TypeError(f"cannot unpack {t}")
 
 
